@@ -301,3 +301,15 @@ Proof.
   - exact (g_to_termcolor_spec_eq s H).
   - exact (g_to_yansi_style_eq s H).
 Qed.
+
+Theorem translated_colours_are_model c : ad_colour_ok (Some c) ->
+  g_at_to_ansi_color (ad_color_of c) = Some (ad_at_colour c) /\
+  g_ct_to_ansi_color (ad_color_of c) = Some (ad_conv_colour ad_gen_crossterm_colors c) /\
+  g_to_owo_colors (ad_color_of c) = Some (ad_conv_colour ad_gen_owo_colors c) /\
+  g_to_termcolor_color (ad_color_of c) = Some (ad_conv_colour ad_gen_termcolor_colors c) /\
+  g_to_yansi_color (ad_color_of c) = Some (ad_conv_colour ad_gen_yansi_colors c).
+Proof.
+  intros H.
+  exact (conj (g_at_to_ansi_color_eq c H) (conj (g_ct_to_ansi_color_eq c H) (conj (g_to_owo_colors_eq c H)
+        (conj (g_to_termcolor_color_eq c H) (g_to_yansi_color_eq c H))))).
+Qed.
